@@ -51,7 +51,7 @@ structure MState where
 def dispatchAll (st : MState) (line : String) : MState × String :=
   match words line with
   | ["forest", "reset"] => ({ st with forest := {}, idx := [] }, "ok")
-  | "forest" :: "parse" :: _ | "forest" :: "xml_id" :: _ =>
+  | "forest" :: "parse" :: _ | "forest" :: "parse_fragment" :: _ | "forest" :: "xml_id" :: _ =>
     (match handleFidx st.forest st.idx ((words line).drop 1) with
      | some (fs, idx, resp) => ({ st with forest := fs, idx := idx }, resp)
      | none => (st, "bad-request"))
